@@ -14,9 +14,9 @@ from symx import api as S
 from . import oracles as O
 
 PROPERTY = "C01"
-OPTIONS = dict(validate=10, query_timeout_ms=60000)
+OPTIONS = dict(validate=10, query_timeout_ms=60000, path_wall_s=4000)
 STUBS = []
-OUTSIDE = ["IEEE rounding of the floor() that decides voxel membership (covered separately by the FP lemma where it could be decided)", "plotting"]
+OUTSIDE = ["IEEE rounding for points other than voxel centres (a point within one ulp of a voxel boundary can land in the neighbour: inherent to doubles)", "plotting"]
 ASSUMPTIONS = ["orientation convention pinned by the repo's own tests: 1-D i->+x; 2-D i->-y, j->+x; 3-D i->-z, j->+x, k->-y"]
 
 SHAPES_Q = {1: [(1,), (3,)], 2: [(1, 1), (2, 3), (3, 1)], 3: [(1, 1, 1), (2, 3, 2), (1, 2, 3)]}
@@ -41,7 +41,49 @@ def configs(tier):
                 kinds = ["scalar", "vector", "series"] if (k == 1 or tier == "thorough") else ["scalar"]
                 for kind in kinds:
                     out.append(dict(dim=dim, shape=list(shape), origin=origin, kind=kind))
+    return out + fp_configs(tier)
+
+
+def fp_configs(tier):
+    out = []
+    q = tier == "quick"
+    for n in ((1, 3) if q else (1, 2, 3, 4, 5, 6)):
+        vs = sorted({-2, -1, 0, n - 1, n, n + 1}) if q else list(range(-2, n + 2))
+        for v in vs:
+            for origin in (("default",) if q else ("default", "user")):
+                out.append(dict(kind="fp", dim=1, shape=[n], v=[v], origin=origin, fp_timeout_ms=900000))
+    for shape, vv in (((2, 3), [(-1, 3), (1, 0), (2, -2)]),) if q else (((2, 3), [(-1, 3), (1, 0), (2, -2), (0, 2)]), ((5, 6), [(-2, 7), (4, 5), (5, -1)])):
+        for v in vv:
+            for origin in (("default",) if q else ("default", "user")):
+                out.append(dict(kind="fp", dim=2, shape=list(shape), v=list(v), origin=origin, fp_timeout_ms=900000))
     return out
+
+
+def body_fp(cfg, darsia):
+    """bit-precise: the centre of voxel v, converted to a coordinate and back, is voxel v -- in IEEE doubles"""
+    dim = cfg["dim"]
+    shape = tuple(cfg["shape"])
+    orient = O.ORIENT[dim]
+    dims = [S.fp(f"d{m}", 1e-4, 1e4) for m in range(dim)]
+    kw = dict(dimensions=list(dims), space_dim=dim, scalar=True)
+    if cfg["origin"] == "user":
+        org = [None] * dim
+        for m in range(dim):
+            a, _sg = orient[m]
+            o = S.fp(f"o{a}", -1e10, 1e10)
+            h = dims[m] / shape[m]
+            S.assume(S.and_(S.le(o, 1e6 * h), S.le(-1e6 * h, o)), check=False)
+            org[a] = o
+        kw["origin"] = list(org)
+    img = darsia.Image(np.zeros(shape), **kw)
+    cs = img.coordinatesystem
+    v = cfg["v"]
+    centre = darsia.VoxelCenter(list(v))
+    back = centre.to_coordinate(cs).to_voxel(cs)
+    for m in range(dim):
+        S.claim(f"fp_voxel_centre_round_trip_axis{m}", S.eq(back[m], v[m]))
+    direct = cs.voxel(cs.coordinate(np.array([x + 0.5 for x in v])))
+    S.claim("fp_voxel_centre_round_trip_untyped", S.eq(list(direct), v))
 
 
 def make_image(darsia, cfg, dims, origin):
@@ -65,6 +107,8 @@ def make_image(darsia, cfg, dims, origin):
 def body(cfg):
     import darsia
 
+    if cfg.get("kind") == "fp":
+        return body_fp(cfg, darsia)
     dim = cfg["dim"]
     shape = tuple(cfg["shape"])
     orient = O.ORIENT[dim]
